@@ -35,6 +35,51 @@ def gen(chk):
             seen.add(cuts)
             cases.append(cfg.req_prefix() + " " + G.frag_arg(data, cuts))
             meta.append((k, cfg, m, cuts))
+    # two requests back to back (each says how it is framed): the read that completes the first body may also carry
+    # the beginning of the second request
+    class Pair:
+        def __init__(self, a, b):
+            self.a, self.b = a, b
+            self.pieces = a.pieces + b.pieces
+            self.events = a.events + b.events
+
+        def bytes(self):
+            return self.a.bytes() + self.b.bytes()
+
+        def cut_classes(self):
+            ca = self.a.cut_classes()
+            n = len(self.a.bytes())
+            cb = {k + n: v for k, v in self.b.cut_classes().items()}
+            ca[n] = "between-requests"
+            ca.update(cb)
+            return ca
+    for k in range(nmsg // 4):
+        cfg = G.rand_cfg(rng)
+        a = b = None
+        while a is None:
+            a = G.gen_request(rng, cfg, body_kind=rng.choice(["cl", "cl", "chunked"]), allow_pipeline_safe=True)
+        while b is None:
+            b = G.gen_request(rng, cfg, allow_pipeline_safe=True)
+        m = Pair(a, b)
+        data = m.bytes()
+        na = len(a.bytes())
+        cc = m.cut_classes()
+        plist = [(), (na,)]
+        body_lo = max(1, na - 60)
+        for _ in range(24):
+            c1 = rng.randrange(body_lo, na) if na > body_lo else na
+            c2 = rng.randrange(na, len(data)) if len(data) > na else na
+            cuts = tuple(sorted({c for c in (c1, c2) if 0 < c < len(data)}))
+            plist.append(cuts)
+        for _ in range(4):
+            plist += G.partitions(rng, len(data), cc, "random")
+        seen = set()
+        for cuts in plist:
+            if cuts in seen:
+                continue
+            seen.add(cuts)
+            cases.append(cfg.req_prefix() + " " + G.frag_arg(data, cuts))
+            meta.append((nmsg + k, cfg, m, cuts))
     return cases, meta
 
 
